@@ -15,7 +15,7 @@ from t10 import targets as T
 
 ID = "C12"
 LEVEL = "exploration"
-COUNTS = {"quick": 3000, "thorough": 300000}
+COUNTS = {"quick": 3000, "thorough": 150000}
 RULE = ("seeded histories of 3-40 block commands (WRITE/READ 10/12/16, WRITE SAME 10/16 incl. NDOB/UNMAP/ANCHOR, SYNCHRONIZE CACHE, "
         "READ CAPACITY (all fields of the 16-byte form varied), INQUIRY, some out of range) with boundary-biased LBAs over capacities "
         "up to 2**64-1, block sizes {1,3,512,520,4096}; 12% of the histories on a writable MMC unit (type 05h, 2048-byte sectors, "
